@@ -49,6 +49,7 @@ void Shim::reset() {
   on_mrelease = nullptr;
   on_write = nullptr;
   on_access = nullptr;
+  on_readdir = nullptr;
   on_sdbus = nullptr;
   fdmap()->clear();
 }
@@ -505,12 +506,34 @@ int faccessat(int dirfd, const char* path, int mode, int flags) {
   return real(dirfd, path, mode, flags);
 }
 
+static void readdir_hook(DIR* d, const char* name) {
+  std::function<void(const std::string&, const std::string&)> cb;
+  std::string dir;
+  {
+    std::lock_guard<std::recursive_mutex> l(g.mu);
+    cb = g.on_readdir;
+    if (!cb) return;
+    auto it = fdmap()->find(dirfd(d));
+    if (it != fdmap()->end()) dir = it->second.path;
+  }
+  Bypass b;
+  if (dir.empty()) {
+    // a dup()ed descriptor: ask the kernel what it refers to
+    char buf[4096];
+    std::string link = "/proc/self/fd/" + std::to_string(dirfd(d));
+    ssize_t n = ::readlink(link.c_str(), buf, sizeof buf - 1);
+    if (n <= 0) return;
+    dir.assign(buf, (size_t)n);
+  }
+  cb(dir, name);
+}
 struct dirent* readdir(DIR* d) {
   REAL(readdir);
   struct dirent* e = real(d);
   if (e && on() && g.dt_unknown) {
     e->d_type = DT_UNKNOWN;
   }
+  if (e && on()) readdir_hook(d, e->d_name);
   return e;
 }
 struct dirent64* readdir64(DIR* d) {
@@ -519,6 +542,7 @@ struct dirent64* readdir64(DIR* d) {
   if (e && on() && g.dt_unknown) {
     e->d_type = DT_UNKNOWN;
   }
+  if (e && on()) readdir_hook(d, e->d_name);
   return e;
 }
 
